@@ -5,8 +5,9 @@ generated function (real, loop-free code) and the generic field loop (real body 
 Packet.unpack_impl / pack_impl, unrolled over D's concrete field table) are both executed
 symbolically from the same symbolic input; every pair of paths must agree:
   normal/normal  - same end offset and same packet heap (unpack); same cursor and same byte view (pack)
-  raise/raise    - both PacketError with the same phase flag (the located entry may name the run
-                   of fixed fields instead of the field, as the property allows)
+  raise/raise    - both PacketError with the same phase flag and the same stack of (offset, name, class) entries,
+                   except that the newest entry may name the run of fixed fields "between 'A' and 'B'" that contains
+                   the failing field, with the offset where A begins (as the property allows)
   normal/raise   - infeasible.
 Table entries that are not modelled concretely (variable fields, Bits, Int of odd width, positioned
 fields, ...) are deterministic uninterpreted state transformers (Engine.call_detrole), so the proof is
@@ -262,7 +263,55 @@ def validate(eng, name, info, direction):
             if gv.cls == 'PacketError' and gv.ref is not None and hv.ref is not None:
                 key = 'PacketError.was_error_found_in_unpacking_phase'
                 goals.append(z3.Select(gs.heap[key], gv.ref) == z3.Select(hs.heap[key], hv.ref))
+                goals += located_agree(gs, gv, hs, hv)
+        if os.environ.get('TV_ONLY'):
+            goals = [goals[int(os.environ['TV_ONLY'])]]
         return z3.And(goals) if goals else z3.BoolVal(True)
+
+    # --- where the error is located: the stack of (offset, name, class) entries of the two PacketErrors.
+    # All entries but the newest are equal (they come with the propagated error); the newest is equal too, or - the
+    # failing entry being one of a contiguous run A..B of fixed struct-coded entries - the generated code names the run
+    # "between 'A' and 'B'" and reports the offset where A begins (= the generic offset minus the sizes of A..failing-1).
+    fixed = [(e['name'], e['byte_count'] if e['cls'] == 'Data' else e.get('struct_size'))
+             if (int_is_inlined(e) or (e['cls'] == 'Data' and e['is_fixed'] and e['byte_count'] is not None)) and e['struct_code'] else None
+             for e in info['table']]
+    runs = []      # (name of A, name of B, name of failing F, bytes from the beginning of A to the beginning of F)
+    for a in range(len(fixed)):
+        for b in range(a + 1, len(fixed)):
+            if any(fixed[x] is None for x in range(a, b + 1)):
+                break
+            delta = 0
+            for f_ in range(a, b + 1):
+                runs.append((fixed[a][0], fixed[b][0], fixed[f_][0], delta))
+                delta += fixed[f_][1]
+
+    def located_agree(gs, gv, hs, hv):
+        from pyvc.values import tuple_parts
+        key = 'PacketError.fields_stack'
+        gl, hl = z3.Select(gs.heap[key], gv.ref), z3.Select(hs.heap[key], hv.ref)
+        glen, hlen = z3.Select(gs.heap['llen'], gl), z3.Select(hs.heap['llen'], hl)
+        garr, harr = z3.Select(gs.heap['lat'], gl), z3.Select(hs.heap['lat'], hl)
+        i_ = z3.Int('i!stack')
+        out = [glen == hlen]
+        if not os.environ.get('TV_NO_OLDER'):
+            i_ = z3.Int('i!stack!%d' % len(eng.extra_hyps))     # a fresh constant: the goal is closed under generalisation
+            out.append(z3.Implies(z3.And(0 <= i_, i_ < glen - 1), z3.Select(garr, i_) == z3.Select(harr, i_)))
+        ge, he = z3.Select(garr, glen - 1), z3.Select(harr, hlen - 1)
+        gt, gp = tuple_parts(ge, 3)
+        ht, hp = tuple_parts(he, 3)
+        alts = [ge == he]
+        for a_, b_, f_, delta in runs:
+            alts.append(z3.And(gt, ht, gp[1] == T.Val.VS(z3.StringVal(f_)),
+                               hp[1] == T.Val.VS(z3.StringVal("between '%s' and '%s'" % (a_, b_))),
+                               hp[2] == gp[2], T.Val.is_VI(gp[0]), T.Val.is_VI(hp[0]),
+                               T.Val.ival(hp[0]) == T.Val.ival(gp[0]) - delta))
+        if os.environ.get('TV_ALT'):
+            a_, b_, f_, delta = runs[-1]
+            parts = dict(gt=gt, ht=ht, gname=gp[1] == T.Val.VS(z3.StringVal(f_)), hname=hp[1] == T.Val.VS(z3.StringVal("between '%s' and '%s'" % (a_, b_))),
+                         cls=hp[2] == gp[2], gi=T.Val.is_VI(gp[0]), hi=T.Val.is_VI(hp[0]), off=T.Val.ival(hp[0]) == T.Val.ival(gp[0]) - delta)
+            return [parts[os.environ['TV_ALT']]]
+        out.append(z3.Or(alts))
+        return out
 
     # Every pair (generic path, generated path): if both can be taken on the same input they agree.
     # (The path conditions carry the definitions of the fresh symbols of their own path, so the two
